@@ -9,7 +9,7 @@ From Anthem Require Import Base.ISet Base.Fresh Syntax.Fol Syntax.Asp
   Model.SimplIntuit Model.SimplClassic Model.StrongFull
   Proofs.SimplCongr Proofs.SimplIntuitOk Proofs.StrategyClsOk Proofs.SimplFull Proofs.StrongFullOk
   Proofs.SimplClassicTotal Proofs.ParserImage Proofs.ParserImagePipeline Proofs.NoPanic
-  Proofs.TaskPipelineBn Proofs.TaskPipelineClosed Proofs.TaskPipelineTrans.
+  Proofs.TaskPipelineBn Proofs.TaskPipelineFv Proofs.TaskPipelineClosed Proofs.TaskPipelineTrans.
 From Anthem Require Model.StrategyCls.
 Import ListNotations.
 Open Scope string_scope.
@@ -82,7 +82,7 @@ Proof.
   injection E as <-. split.
   - exact (apply_fixpoint_bn _ _ _ _ portfolio_ht_bn Hb Eg).
   - apply (fv_nil_incl x g); [|exact Hf].
-    exact (apply_fixpoint_fv_incl _ _ _ _ (compose_fv_incl _ portfolio_ht_fv) Eg).
+    exact (ht_fixpoint_fv _ _ _ Eg).
 Qed.
 Lemma simp_classic_full_fuel_psent fuel x y : simp_classic_full_fuel fuel x = SOk y -> psent x -> psent y.
 Proof.
@@ -92,10 +92,9 @@ Proof.
     injection E as <-.
     exact (run_strategy_opt_pi fuel _ _ StrategyCls.Fixpoint_ x g strong_FULL_CLASSIC_opt_safe Hp Eg).
   - apply closed_iff in Hc. destruct Hc as [Hb Hf]. apply closed_iff.
-    apply simp_classic_full_run in E. pose proof (full_classic_strategies _ _ _ _ E) as [_ Hi].
-    cbn [StrategyCls.run_strategy] in E. split.
+    apply simp_classic_full_run in E. cbn [StrategyCls.run_strategy] in E. split.
     + exact (apply_fixpoint_bn _ _ _ _ portfolio_full_bn Hb E).
-    + exact (fv_nil_incl x y Hi Hf).
+    + exact (fv_nil_incl x y (full_fixpoint_fv _ _ _ E) Hf).
 Qed.
 Lemma smap_in {A B} (f : A -> sresult B) : forall l m, smap f l = SOk m ->
   forall y, In y m -> exists x, In x l /\ f x = SOk y.
